@@ -206,8 +206,15 @@ async fn send_impl<T, Codec>(
                                 let _ = result_tx.send(Ok(()));
                             }
                             Err(err) => {
+                                // A receiver that has been dropped is no failure of the connection.
+                                let reason = match &err.kind {
+                                    base::SendErrorKind::Send(chmux::SendError::Closed { gracefully: false }) => {
+                                        ClosedReason::Dropped
+                                    }
+                                    _ => ClosedReason::Failed,
+                                };
                                 let _ = remote_send_err_tx.send(Some(RemoteSendError::Send(err.kind.clone())));
-                                let _ = closed_tx.send(Some(ClosedReason::Failed));
+                                let _ = closed_tx.send(Some(reason));
                                 if let Ok(item) = err.item
                                     && let Err(Err(err)) = result_tx.send(Err(base::SendError {
                                         kind: err.kind,
